@@ -100,6 +100,20 @@ CHECKS = {
              "of distinct sub-objects and both flop counters with an independent operation count.",
         note="Trusted: the child table and the rules in vf/checks/c09.py (written from the "
              "statement, not from the mappers), vf/refsem.py."),
+    "C19": dict(
+        category="exploration", design="DESIGN.md 4/C19",
+        technique="bounded-exhaustive enumeration of flat inputs (exponents, integer and "
+                  "polynomial pairs, vector lengths, raw term lists) against exact Q[x] / Bezout / "
+                  "DFT-definition oracles, with shrinking to canonical minimal witnesses",
+        text="Every input inside the stated boxes (integer_power over ints, Fractions, matrices "
+             "and free-monoid words for n up to 64; all integer pairs of [-200,200]^2 and 4096 "
+             "polynomial pairs for Euclid; every FFT length 1..64 on every unit vector; every "
+             "sparse polynomial pair of small degree under + - * divmod ** and after mappers; "
+             "quotient nodes on [-12,12]^2) is executed on the real code and compared exactly "
+             "(FFT: 1e-9). Within those bounds the property is decided, not sampled.",
+        note="Trusted: Python int / Fraction / complex arithmetic, math.gcd / math.lcm, "
+             "cmath.exp, the plain EvaluationMapper for evaluating sym_fft output. "
+             "Non-termination is judged by a 4000-call budget (13x the largest terminating run)."),
 }
 
 NOT_BUILT_REASON = "check not built yet in this revision (planned, see DESIGN.md section 4)"
